@@ -25,10 +25,13 @@ func (d fakeDev) Name() string          { return d.name }
 func (d fakeDev) MacAddress() []byte    { return d.mac }
 func (d fakeDev) EncryptionKey() []byte { return d.key }
 
-type fakeCfg struct{ devs []ble.DeviceConfig }
+type fakeCfg struct {
+	devs  []ble.DeviceConfig
+	debug *bool
+}
 
 func (c fakeCfg) Name() string                { return "verif" }
-func (c fakeCfg) LogDebug() bool              { return false }
+func (c fakeCfg) LogDebug() bool              { return c.debug != nil && *c.debug }
 func (c fakeCfg) Devices() []ble.DeviceConfig { return c.devs }
 
 var reDecrypted = regexp.MustCompile(`decryptedBytes=([0-9a-f]*), len=(\d+)`)
@@ -42,8 +45,9 @@ func hexOrDash(b []byte) string {
 }
 
 // runBleHandler: gvrun blehandler <casefile>
-//   "h <id> key=<hex|-> raw=<hex|->"            advertisement handling
-//   "m <id> addr=<hex of the address string> macs=<hex|->,<hex>,..."   device lookup
+//
+//	"h <id> key=<hex|-> raw=<hex|->"            advertisement handling
+//	"m <id> addr=<hex of the address string> macs=<hex|->,<hex>,..."   device lookup
 func runBleHandler() {
 	f, err := os.Open(os.Args[2])
 	if err != nil {
@@ -61,7 +65,8 @@ func runBleHandler() {
 		return b
 	}
 	// one instance handles the whole history of advertisements (same device name, changing keys)
-	instance := ble.VerifNewBleStruct(fakeCfg{})
+	debugFlag := false
+	instance := ble.VerifNewBleStruct(fakeCfg{debug: &debugFlag})
 	for sc.Scan() {
 		fs := strings.Fields(sc.Text())
 		if len(fs) < 3 {
@@ -86,7 +91,7 @@ func runBleHandler() {
 						res = "P"
 					}
 				}()
-				d := ble.VerifGetDeviceConfig(fakeCfg{devs}, string(dec(kv["addr"])))
+				d := ble.VerifGetDeviceConfig(fakeCfg{devs: devs}, string(dec(kv["addr"])))
 				if d == nil {
 					return "none"
 				}
@@ -95,6 +100,7 @@ func runBleHandler() {
 			fmt.Fprintf(out, "m %s %s\n", fs[1], res)
 		case "h":
 			key, raw := dec(kv["key"]), dec(kv["raw"])
+			debugFlag = kv["dbg"] == "1"
 			rawCopy := append([]byte{}, raw...)
 			var buf bytes.Buffer
 			log.SetOutput(&buf)
